@@ -46,6 +46,9 @@ def read_all(app, tag):
     note(tag + ':json_wanted', bool(rq.is_json_requested))
     note(tag + ':signed', rq.get_cookie('s', secret='k3y'))
     note(tag + ':params_m', rq.params.get('m') if rq.method == 'GET' else None)
+    # the request as a mapping over its environ, and attributes the application parks on it
+    note(tag + ':item', (rq['sim.m'], rq.get('sim.m'), 'sim.m' in rq.keys(), 'sim.m' in list(rq)))
+    note(tag + ':ext', getattr(rq, 'trace', None))
 
 
 def write_some(app, m, status):
@@ -74,6 +77,7 @@ def build(app):
     def before():
         rq = app.request
         note('before:path', rq.path)
+        note('before:ext', getattr(rq, 'trace', None))      # nothing parked on this request yet
         app.response.headers['X-Before'] = 'b' + (rq.query.get('m') or '?')
         if rq.query.get('hc') == '1':
             app.response.set_cookie('hk', 'h' + (rq.query.get('m') or '?'))
@@ -82,6 +86,7 @@ def build(app):
     @app.on('after_request')
     def after():
         note('after:path', app.request.path)
+        note('after:ext', getattr(app.request, 'trace', None))
         app.response.headers['X-After'] = 'a' + (app.request.query.get('m') or '?')
 
     @app.route('/echo/<m>', method=['GET', 'POST', 'PUT'])
@@ -92,6 +97,7 @@ def build(app):
         write_some(app, m, spec['status'])
         read_back(app, 'w1')
         rq = app.request
+        rq.trace = 't' + m          # a user-defined request attribute (kept in the environ of this request)
         if rq.method != 'GET':
             note('body', rq.body.read())
             note('form_f', rq.forms.get('f'))
@@ -249,6 +255,7 @@ def build(app):
     def public(**kw):
         note('public:kw', dict(kw))
         note('public:url_args', dict(app.request.url_args))
+        note('public:ext', getattr(app.request, 'trace', None))
         return 'public'
 
     @app.route('/session')
